@@ -154,7 +154,7 @@ def main():
         }],
         "checks": checks,
         "not_applicable": na,
-        "notes": "All checks: /venv/bin/python run_check.py <id> --tier quick|thorough [--replay file]. Exit 2 = harness error (never a verdict). known_findings.json lists recorded and fixed defects.",
+        "notes": "All checks: /venv/bin/python run_check.py <id> --tier quick|thorough [--replay file]. Exit 2 = harness error (never a verdict). known_findings.json lists recorded (open) and fixed defects; regressions/<id>/*.json are the shrunk inputs of fixed defects, replayed on every run (a failing one is a VIOLATION).",
     }
     with open(os.path.join(VERIF, "MANIFEST.json"), "w") as f:
         json.dump(man, f, indent=1)
